@@ -6,7 +6,7 @@ KIND = {'ACT_AI': 'assign', 'ACT_IF': 'if', 'ACT_WHL': 'while', 'ACT_FOR': 'for'
         'ACT_DEL': 'delete', 'ACT_REL': 'relate', 'ACT_RU': 'relate', 'ACT_UNR': 'unrelate', 'ACT_URU': 'unrelate',
         'ACT_FIO': 'select_from', 'ACT_FIW': 'select_from', 'ACT_SEL': 'select_related', 'ACT_RET': 'return', 'ACT_BRK': 'break',
         'ACT_CON': 'continue', 'ACT_CTL': 'control', 'ACT_FNC': 'call', 'ACT_BRG': 'call', 'ACT_TFM': 'call', 'ACT_EL': 'elif',
-        'ACT_E': 'else'}
+        'ACT_E': 'else', 'E_GPR': 'gen_pre'}
 
 
 def subtypes(inst, rel):
@@ -19,6 +19,20 @@ def subtypes(inst, rel):
             if x is not None:
                 out.append(xtuml.get_metaclass(x).kind)
     return out
+
+
+def event_kind(m, s):
+    """the kind of an event statement (subtype E_ESS of ACT_SMT), read from the subtype hierarchy below it"""
+    ess = one(s).E_ESS[603]()
+    if one(ess).E_GES[701].E_GSME[703].E_GEN[705]():
+        return 'gen_inst'
+    if one(ess).E_GES[701].E_GSME[703].E_GAR[705]() or one(ess).E_GES[701].E_GSME[703].E_GEC[705]():
+        return 'gen_class'
+    if one(ess).E_CES[701].E_CSME[702].E_CEI[704]():
+        return 'create_ev_inst'
+    if one(ess).E_CES[701].E_CSME[702].E_CEA[704]() or one(ess).E_CES[701].E_CSME[702].E_CEC[704]():
+        return 'create_ev_class'
+    return 'E_ESS'
 
 
 def pos(x):
@@ -59,7 +73,10 @@ def collect(m, inst):
                 o, r = one(lnk).O_OBJ[678](), one(lnk).R_REL[681]()
                 links.append([o.Key_Lett if o else '', 'R%d' % r.Numb if r else '', lnk.Rel_Phrase or ''])
                 lnk = by_link.get(lnk.Next_Link_ID) if lnk.Next_Link_ID else None
-        stmts.append({'k': KIND.get(st[0], st[0]) if st else '?', 'tag': tag, 'links': links, 'line': s.LineNumber, 'sc': s.StartPosition, 'ec': s.EndPosition,
+        kind = KIND.get(st[0], st[0]) if st else '?'
+        if kind == 'E_ESS':
+            kind = event_kind(m, s)
+        stmts.append({'k': kind, 'tag': tag, 'links': links, 'line': s.LineNumber, 'sc': s.StartPosition, 'ec': s.EndPosition,
                       'prev': pos(prev) if prev is not None else [], 'first': first_of_block.get(blk.Block_ID, []) if blk else []})
     vals = []
     for v in m.select_many('V_VAL'):
